@@ -434,4 +434,11 @@ theorem C09_source_tie_getTimeElapsedWithinLimits (prev now start stop : Int) :
       = Go.R.ofOption (elapsed prev now start stop) :=
   TieFn.incentive_getTimeElapsedWithinLimits prev now start stop
 
+/-- `CalculateSingleReward` on Dec mantissas = `singleReward`; the model's `none` is `ErrDecreasingRewardFactor` -/
+theorem C09_source_tie_CalculateSingleReward (old new shares : Int) :
+    GoFn.Incentive.CalculateSingleReward_translated = true ∧
+    GoFn.Incentive.CalculateSingleReward ⟨old⟩ ⟨new⟩ ⟨shares⟩
+      = (match singleReward old new shares with | none => Go.R.err | some x => Go.R.ok x) :=
+  TieFn.incentive_CalculateSingleReward old new shares
+
 end KV.Acc
